@@ -8,6 +8,7 @@ import YardlModel.Schema
 import YardlModel.Json
 import YardlModel.Plan
 import YardlModel.SyntaxJson
+import YardlModel.Evolution
 
 /-! Line-protocol driver for the wire engine: one JSON request per line on stdin, one JSON
     reply per line on stdout. -/
@@ -233,6 +234,68 @@ mutual
     | j :: r => do pure (.cons (← seOfJson j) (← sesOfJson r))
 end
 
+/-! evolution (C05/C06): wire-type JSON with a trailing definition name on "enum" and "rec" nodes -/
+def nameCode (s : String) : Nat := s.toUTF8.toList.foldl (fun acc b => acc * 256 + b.toNat) 1
+
+def fieldsOfL : List (Nat × Evo.ETy) → Evo.EFields
+  | [] => .nil
+  | (n, t) :: r => .cons n t (fieldsOfL r)
+
+def casesOfL : List (Option Evo.ETy) → Evo.ECases
+  | [] => .nil
+  | none :: r => .null (casesOfL r)
+  | some t :: r => .cons t (casesOfL r)
+
+partial def etyOfJson (j : Json) : Except String Evo.ETy := do
+  let a ← j.getArr?
+  let tag ← (a[0]?.getD Json.null).getStr?
+  let arg (i : Nat) : Json := a[i]?.getD Json.null
+  match tag with
+  | "prim" =>
+    let s ← (arg 1).getStr?
+    match primOfString s with
+    | some p => pure (.prim p)
+    | none => throw s!"unknown prim {s}"
+  | "enum" =>
+    let s ← (arg 1).getStr?
+    let some b := primOfString s | throw s!"unknown prim {s}"
+    let fl ← (arg 2).getBool?
+    let syms ← (← (arg 3).getArr?).toList.mapM fun e => do
+      let p ← e.getArr?
+      pure (nameCode (← (p[0]?.getD Json.null).getStr?), ← (p[1]?.getD Json.null).getInt?)
+    pure (.enum (nameCode (← (arg 4).getStr?)) fl b syms)
+  | "rec" =>
+    let fs ← (← (arg 1).getArr?).toList.mapM fun e => do
+      let p ← e.getArr?
+      pure (nameCode (← (p[0]?.getD Json.null).getStr?), ← etyOfJson (p[1]?.getD Json.null))
+    pure (.record (nameCode (← (arg 2).getStr?)) (fieldsOfL fs))
+  | "opt" => pure (.optional (← etyOfJson (arg 1)))
+  | "union" =>
+    let hn ← (arg 1).getBool?
+    let cs ← (← (arg 2).getArr?).toList.mapM fun e => do
+      let p ← e.getArr?
+      pure (some (← etyOfJson (p[1]?.getD Json.null)))
+    pure (.union (casesOfL (if hn then none :: cs else cs)))
+  | "vec" =>
+    let t ← etyOfJson (arg 1)
+    if (arg 2).isNull then pure (.vector t none) else pure (.vector t (some (← jNat (arg 2))))
+  | "arr" =>
+    let t ← etyOfJson (arg 1)
+    let k ← (arg 2).getArr?
+    match ← (k[0]?.getD Json.null).getStr? with
+    | "dyn" => pure (.array t .dynamic)
+    | "rank" => pure (.array t (.rank (← jNat (k[1]?.getD Json.null))))
+    | "fixed" => pure (.array t (.fixed (← (← (k[1]?.getD Json.null).getArr?).toList.mapM jNat)))
+    | kt => throw s!"bad array kind {kt}"
+  | "map" => pure (.map (← etyOfJson (arg 1)) (← etyOfJson (arg 2)))
+  | _ => throw s!"bad type tag {tag}"
+
+def clsName : Evo.Cls → String
+  | .same => "same" | .defChanged => "defChanged" | .silent => "silent" | .warn => "warn" | .error => "error"
+
+def sevName : Evo.Sev → String
+  | .ok => "ok" | .warn => "warn" | .err => "err"
+
 def backendOfString : String → Except String Plan.Backend
   | "py" => pure .pyBinary | "matlab" => pure .matlabBinary | "pyndjson" => pure .pyNdjson
   | s => throw s!"bad backend {s}"
@@ -425,6 +488,24 @@ def handle (j : Json) : Except String Json := do
         pure (Json.mkObj [("is_spelling", Json.bool (Syntax.isSpelling t y)), ("tree_of_sur", Syntax.tToJson (Syntax.tree t))])
       | .error _ => pure Json.null
     pure (Json.mkObj [("raw", raw), ("sem", sem), ("sur", sp)])
+  | "evo_proto" =>
+    -- verdict (ok / warn / err) of a new protocol against a previous version of it; "new_defs": the record
+    -- and enum definitions of the new version (nodes carry their names)
+    let parse (j : Json) : Except String (List Evo.EStep) := do
+      (← j.getArr?).toList.mapM fun e => do
+        pure { name := nameCode (← (← e.getObjVal? "name").getStr?), ty := ← etyOfJson (← e.getObjVal? "ty"),
+               stream := ← (← e.getObjVal? "stream").getBool? }
+    let newS ← parse (← j.getObjVal? "new")
+    let oldS ← parse (← j.getObjVal? "old")
+    let defs ← (← (← j.getObjVal? "new_defs").getArr?).toList.mapM etyOfJson
+    let env : Evo.Env := defs.filterMap fun d => match d with
+      | .record n fs => some (n, .record n fs)
+      | .enum n fl b sy => some (n, .enum n fl b sy)
+      | _ => none
+    let classes := newS.filterMap fun st => match Evo.findStep oldS st.name with
+      | some (_, o) => some (Json.arr #[Json.str (toString st.name), Json.str (clsName (Evo.cmp (Evo.depth st.ty + Evo.depth o.ty) st.ty o.ty))])
+      | none => none
+    pure (Json.mkObj [("verdict", Json.str (sevName (Evo.protoVerdict env newS oldS))), ("classes", Json.arr classes.toArray)])
   | "narrow" =>
     let b ← jNat (← j.getObjVal? "bits")
     pure (Json.mkObj [("f32", jn (Json.narrow b))])
